@@ -63,7 +63,13 @@ KINDS = [  # (repairable, intermittent, activeDur, inactiveDur)
     (True, False, 1, 0), (False, False, 1, 0),
     (True, True, 1, 1), (True, True, 2, 1), (True, True, 1, 2), (True, True, 2, 3),
     (False, True, 1, 1), (False, True, 2, 3), (False, True, 1, 2),
+    (True, True, 1, 0), (True, True, 0, 1), (False, True, 0, 0),      # zero on / off durations
 ]
+# first simulated days put in on purpose (the model is calendar free: the real date arithmetic — start dates,
+# repair / expiry dates, days active before the simulation — must not depend on where the period sits):
+# the default of the adapter, two days before New Year of a leap year, Feb 27 of a leap year (the period crosses
+# Feb 29), day-of-year 366, Feb 28 of a common year
+SIM_STARTS = [None, (2023, 12, 30), (2024, 2, 27), (2024, 12, 31), (2023, 2, 28)]
 
 
 def small_world(rng):
@@ -74,7 +80,7 @@ def small_world(rng):
     comps = []
     for _ in range(rng.randint(1, 3)):
         ems = []
-        for _ in range(rng.randint(1, 4)):
+        for _ in range(rng.choice([0, 1, 1, 2, 2, 3, 4])):       # 0: a component without any emission
             rep, inter, ad, idur = rng.choice(KINDS)
             nrd = rng.randint(1, 9)
             ems.append((rng.randint(-nrd, n), nrd, rng.randint(0, 3), rep, inter, ad, idur, rng.choice([256, 512, 1024, 2048])))
@@ -173,7 +179,23 @@ def _sc(x):
     return int(k)
 
 
-def drive(world):
+def drive(world, sim_start=None):
+    """`sim_start` (y, m, d): first simulated day (the adapter's module constant is switched for the duration
+    of the call — every date of the adapter is derived from it at call time)"""
+    from harness.adapters import emission as E
+    from datetime import date as _date
+
+    if sim_start is None:
+        return _drive(world)
+    saved = E.SIM_START
+    E.SIM_START = _date(*sim_start)
+    try:
+        return _drive(world)
+    finally:
+        E.SIM_START = saved
+
+
+def _drive(world):
     """runs the world on real Components; returns dict(rows, obs, recs, lists_ok)
     rows: per day the 8 integers the real accumulators show
     obs : per day what the harness itself observes on the emission objects
@@ -397,15 +419,21 @@ def component_stage(ctx):
         lines += model_lines(w, ("rows", "recrows", "recs", "emit"))
         idx.append(len(lines) - 4)
     out = LeanDriver("drv_world").run(lines)
-    for w, i in zip(worlds, idx):
+    starts = [SIM_STARTS[k % len(SIM_STARTS)] if k % 2 else None for k in range(len(worlds))]
+    first_pass = {}
+    for k, (w, i) in enumerate(zip(worlds, idx)):
         ctx.evaluations += 1
         ctx.traces += 1
         try:
-            d = drive(w)
-        except ArithmeticError:
-            # daily emission float sum not exactly representable: outside the exact grid
-            ctx.count("component_world_inexact_sum")
+            d = drive(w, starts[k])
+        except ArithmeticError as exc:
+            # daily emission float sum not on the exact grid: the rows cannot be compared — not a silent skip
+            ctx.disagree("world/inexact-sum", {"world": w}, None, repr(exc))
             continue
+        if starts[k] is not None:
+            ctx.count("component_worlds_boundary_sim_start")
+        if k % 10 == 0:
+            first_pass[k] = (fmt_rows(d["rows"]), sorted((r["i"], r["start"], r["endDate"], r["kind"]) for r in d["recs"]))
         judge_world(ctx, w, d, out[i], out[i + 1], out[i + 2], out[i + 3])
         rows = d["rows"]
         if any(e[0] == w[0] - 1 for _, evs in w[1] for e in evs):
@@ -419,6 +447,22 @@ def component_stage(ctx):
             ctx.count("component_worlds_with_intermittent")
         ctx.nontrivial.add(("cw", len(rows), sum(r[0] for r in rows), sum(r[2] for r in rows), sum(r[3] for r in rows),
                             sum(r[4] for r in rows)))
+    # same-process history: every tenth world is driven again at the end, in REVERSE order (so each now follows
+    # other predecessors; all emission ids collide anyway — make_emission numbers every emission 1) and with another
+    # first simulated day; rows and records must be what they were the first time
+    for k in sorted(first_pass, reverse=True):
+        alt = SIM_STARTS[(k // 10) % len(SIM_STARTS)]
+        try:
+            d = drive(worlds[k], alt)
+        except ArithmeticError:
+            continue
+        again = (fmt_rows(d["rows"]), sorted((r["i"], r["start"], r["endDate"], r["kind"]) for r in d["recs"]))
+        ctx.count("component_worlds_rerun_in_reverse_order")
+        if again != first_pass[k]:
+            ctx.violate("C11:history-dependent",
+                        "rows / records of a world depend on the worlds driven before it in the same process or on the "
+                        "calendar position of the first simulated day",
+                        {"world": worlds[k], "first": first_pass[k][0], "again": again[0], "sim_start_again": alt})
     ctx.sample({"world": worlds[0], "impl_rows": impl_rows(worlds[0])})
 
 
@@ -464,7 +508,7 @@ def file_records(recs):
     return out
 
 
-def file_oracle(ts, recs, N):
+def file_oracle(ts, recs, N, start=None):
     """the property evaluated on the two output files alone; returns [(signature, day, what)] (first
     failing day per signature) and the per-day expired counts derived from the records"""
     frecs = file_records(recs)
@@ -480,6 +524,9 @@ def file_oracle(ts, recs, N):
     prev = 0
     stats = {"f4b_days": 0, "during_reading_fail_days": 0, "days": 0}
     for n, row in enumerate(ts):
+        # the row of day n carries the calendar date start + n (read with the calendar, not with an index)
+        if start is not None and str(row.get("Date", ""))[:10] != (start + timedelta(days=n)).isoformat():
+            flag("C11:timeseries-dates", n, "the Date of a timeseries row is not first day + row number")
         act, new = int(row[TS["active"]]), int(row[TS["new"]])
         rp, nt = int(row[TS["rep"]]), int(row[TS["nat"]])
         if act != prev + new - rp - nt - exp_on[n]:
@@ -536,11 +583,20 @@ def run_whole_configs(ctx, n):
     from harness import wholerun as W
 
     cfgs = [W.make_config(ctx.rng, **FORCED)] + [W.make_config(ctx.rng) for _ in range(max(0, n - 1))]
+    # boundary periods put in on purpose (first day with pre-existing emissions and last day included): a period
+    # of more than a year that starts on Dec 30, straddles New Year, contains Feb 29 and ends on day-of-year 366;
+    # a 2-day period Feb 28 -> Feb 29; a 1-day period on day-of-year 366.  (Periods whose end (month, day) lies
+    # before the start's are the shape in which the survey planner crashes, recorded under C06 — not generated.)
+    periods = [([2024, 2, 28], [2024, 2, 29]), ([2024, 12, 31], [2024, 12, 31]), ([2023, 12, 30], [2024, 12, 31])]
+    for j, (st, en) in enumerate(periods[:ctx.pick(2, 3)]):
+        cfgs.append(W.make_config(ctx.rng, **dict(FORCED, start=st, end=en, n_sites=4,
+                                                  rep={"epr": 0.0625, "duration": 30, "multi": True})))
     jobs = [(c, True, 1) for c in cfgs]
     # one pool-mode job per run: 6 programs on a 1-process pool, so that Pool.starmap sends several program
     # tasks to the worker in one chunk (pickled together) — the ledger / counts / reconstruction oracles then
     # also see outputs produced by the multiprocessing path of the simulator
     pool_cfg = dict(cfgs[0])
+    pool_cfg["n_sims"] = 2          # two simulation numbers through one worker
     have = {p["name"] for p in pool_cfg["programs"]}
     pool_cfg["programs"] = list(pool_cfg["programs"]) + [p for p in (
         {"name": "P_fix", "methods": ["FIX", "OGI_FU2"]}, {"name": "P_OGIb", "methods": ["OGI"]},
@@ -560,6 +616,9 @@ def run_whole_configs(ctx, n):
                      + r.log.strip().splitlines()[-1][:200])
             last = r.log
             PARTIAL.append(r)
+            ctx.broke("whole run of a generated configuration crashed (%s mode)" % ("pool" if r.pool_mode else "debug"),
+                      json.dumps({"start": r.cfg["start"], "end": r.cfg["end"], "granular": r.cfg["granular"]})
+                      + "\n" + r.log[-1500:])
             if k == 0:
                 ctx.note("the forced intermittent configuration crashed")
             if r.pool_mode:
@@ -567,9 +626,7 @@ def run_whole_configs(ctx, n):
             continue
         good.append(r)
     if not good and results:
-        for r in PARTIAL:
-            r.cleanup()
-        raise RuntimeError("every whole run failed (infrastructure): " + last[-2000:])
+        ctx.broke("every whole run crashed", last[-2000:])
     return good
 
 
@@ -586,7 +643,7 @@ def judge_program_run(ctx, res, recs_all, prog, sim, method_ids, delays, record=
         if record:
             ctx.violate("C11:timeseries-length", "timeseries does not have one row per simulated day", inp)
         return raised
-    bad, exp_on, stats = file_oracle(ts, recs, N)
+    bad, exp_on, stats = file_oracle(ts, recs, N, res.start)
     for sig, day, what in bad:
         raised.append(sig)
         if record:
@@ -667,6 +724,10 @@ def wholerun(ctx):
                     judge_program_run(ctx, res, recs_all, prog, sim, method_ids, delays)
                     if getattr(res, "pool_mode", False):
                         ctx.count("wholerun_program_runs_pool_mode")
+            if res.ndays <= 2:
+                ctx.count("wholerun_runs_period_of_1_or_2_days")
+            if res.start.year != res.end.year:
+                ctx.count("wholerun_runs_straddling_new_year")
             ctx.sample({"whole_run": {k: res.cfg[k] for k in ("granular", "start", "end", "n_sites")},
                         "programs": res.programs,
                         "intermittent_sources": [s["source"] for s in res.cfg.get("sources", []) if not s["persistent"]]},
